@@ -677,6 +677,11 @@ func (s *Server) handlePQClientRequestHidden(b []byte) (int, *HandshakeState, er
 	// init kem
 	hs.kem = new(kemState)
 
+	// The client's certificate arrives in this first message: apply the
+	// configured client-verification policy to it, as the discoverable
+	// handshake does after the client ack.
+	hs.certVerify = s.config.ClientVerify
+
 	n, err := s.readPQClientRequestHidden(hs, b)
 
 	if err != nil {
